@@ -7,6 +7,7 @@ import (
 	"time"
 
 	protocol "github.com/longportapp/openapi-protocol/go"
+	"github.com/longportapp/openapi-protocol/go/verifhook"
 
 	control "github.com/longportapp/openapi-protobufs/gen/go/control"
 	"github.com/pkg/errors"
@@ -366,11 +367,13 @@ func (c *client) Do(ctx context.Context, req *Request, opts ...RequestOption) (r
 	// response that arrives right after the write must find its receiver
 	ch, unregister := c.register(rp.Metadata.RequestId)
 	defer unregister()
+	verifhook.Point("do.registered", rp.Metadata.RequestId)
 
 	if err = c.write(&rp); err != nil {
 		return
 	}
 
+	verifhook.Point("do.after-write", rp.Metadata.RequestId)
 	res, err = c.recv(rc, rp.Metadata.RequestId, ch)
 	if err != nil {
 		return
@@ -512,6 +515,7 @@ func (c *client) keepalive() {
 		case <-c.closeCh:
 			return
 		case <-t.C:
+			verifhook.Point("ka.tick")
 			if err := check(); err != nil {
 				c.Logger.Errorf("keepalive error: %v", err)
 				c.reconnecting()
